@@ -32,10 +32,11 @@ import (
 	"github.com/hpinc/go3mf"
 	"github.com/yofu/dxf"
 	"github.com/yofu/dxf/entity"
+	"verifharness/iogen"
 	. "verifharness/kit"
 )
 
-func main() { Main("C15", checkC15) }
+func main() { Main("C15", checkC15, iogen.Gen) }
 
 // ------------------------------------------------------------------ inputs
 
